@@ -46,13 +46,23 @@ FRAGMENTS = [
 HEADER_TOKEN = re.compile(r'^#\.{0,3}[a-z]+:$')
 
 
+_shared = {}
+
+
 def lexer():
     from pydiffx.integrations.pygments_lexer import DiffXLexer
     return DiffXLexer()
 
 
 def tokenize(text):
-    return list(lexer().get_tokens_unprocessed(text))
+    # alternate between a fresh lexer and one instance reused for every
+    # input of the run (state must not leak from one text into the next)
+    if 'lx' not in _shared:
+        _shared['lx'] = lexer()
+        _shared['n'] = 0
+    _shared['n'] += 1
+    lx = _shared['lx'] if _shared['n'] % 2 else lexer()
+    return list(lx.get_tokens_unprocessed(text))
 
 
 def check_lossless(text, obs, tag):
